@@ -160,11 +160,11 @@ AllBodies(P) == {P.body} \cup {P.helpers[i][4] : i \in {j \in 1..Len(P.helpers) 
 \* to functions) are propagated: every occurrence of a subexpression is evaluated in its static environment, in which
 \* parameters have the outcome <<"unk">> (unknown) and let-bound names the outcome of their binding
 Unk == <<"unk">>
-RECURSIVE PatNames(_)
-PatNames(p) == CASE p[1] = "pn" -> {} [] p[1] = "pv" -> {p[2]} [] p[1] = "pat" -> {p[2]} \cup PatNames(p[3]) [] p[1] = "pc" -> PatNames(p[2]) \cup PatNames(p[3])
+RECURSIVE PatNameSet(_)
+PatNameSet(p) == CASE p[1] = "pn" -> {} [] p[1] = "pv" -> {p[2]} [] p[1] = "pat" -> {p[2]} \cup PatNameSet(p[3]) [] p[1] = "pc" -> PatNameSet(p[2]) \cup PatNameSet(p[3])
 UnkEnv(names) == [n \in names |-> Unk]
 \* bind a pattern to an outcome: unknown or failed outcomes make every name of the pattern unknown
-SBindU(pat, o, rho) == IF o[1] = "ok" /\ ~HasClo(o[2]) THEN Bind(pat, o, EmptyEnv) @@ rho ELSE UnkEnv(PatNames(pat)) @@ rho
+SBindU(pat, o, rho) == IF o[1] = "ok" /\ ~HasClo(o[2]) THEN Bind(pat, o, EmptyEnv) @@ rho ELSE UnkEnv(PatNameSet(pat)) @@ rho
 Fails(P, e, rho) == e[1] \notin {"lit", "var"} /\ SEval(P, e, rho, 20)[1] = "err"
 RECURSIVE Scan(_, _, _), ScanSeq(_, _, _, _), ScanAssign(_, _, _, _)
 ScanSeq(P, bs, body, rho) ==
@@ -184,14 +184,14 @@ Scan(P, e, rho) ==
                                 \/ Scan(P, e[4], [n \in {e[3][i][1] : i \in 1..Len(e[3])} |->
                                         SEval(P, e[3][CHOOSE i \in 1..Len(e[3]) : e[3][i][1] = n][2], rho, 20)] @@ rho)
         [] e[1] = "assign" -> ScanAssign(P, e[2], e[3], rho)
-        [] e[1] = "lambda" -> Scan(P, e[4], UnkEnv(PatNames(e[3])) @@ rho)
+        [] e[1] = "lambda" -> Scan(P, e[4], UnkEnv(PatNameSet(e[3])) @@ rho)
         [] e[1] = "apply" -> Scan(P, e[2], rho) \/ Scan(P, e[3], rho)
         [] OTHER -> FALSE
 StaticFail(P) ==
   \/ \E b \in AllBodies(P) : \E e \in SubExprs(b) : e[1] # "lit" /\ Closed(e) /\ SEval(P, e, EmptyEnv, 20)[1] = "err"
-  \/ Scan(P, P.body, UnkEnv(PatNames(P.args)))
+  \/ Scan(P, P.body, UnkEnv(PatNameSet(P.args)))
   \/ \E i \in 1..Len(P.helpers) :
-        \/ P.helpers[i][1] = "defun" /\ Scan(P, P.helpers[i][4], UnkEnv(PatNames(P.helpers[i][3])))
+        \/ P.helpers[i][1] = "defun" /\ Scan(P, P.helpers[i][4], UnkEnv(PatNameSet(P.helpers[i][3])))
         \/ P.helpers[i][1] = "defmacro" /\ Scan(P, P.helpers[i][4], UnkEnv({P.helpers[i][3][k] : k \in 1..Len(P.helpers[i][3])}))
         \/ P.helpers[i][1] = "defconst" /\ Scan(P, P.helpers[i][3], EmptyEnv)
 
